@@ -190,7 +190,7 @@ def run(ctx):
             cfg = "%s/b32_%d.cfg" % (ctx.tmp, curve[0])
             with open(cfg, "w") as f:
                 f.write("SPECIFICATION Spec\nCONSTANTS\n  PP = %d\n  AA = %d\n  BB = %d\n  NN = %d\n  GX = %d\n  GY = %d\nINVARIANT PubPrivConsistent\nINVARIANT DepthIsPathLength\n" % (curve + (n, g[0], g[1])))
-            tab = ctx.table("bip32/BIP32Toy.tla", cfg, env={"MAXDEPTH": 3 if q or n > 20 else 4, "EXPORT": 1}, workers=8, timeout=3000)
+            tab = ctx.table("bip32/BIP32Toy.tla", cfg, env={"MAXDEPTH": 3 if q or n > 20 else 4, "EXPORT": 1}, workers=8, timeout=7200)
             if tab:
                 replay_toy(ctx, curve, tab)
         ctx.exhaustive.append("BIP32Toy: every root key x 2 chain codes x every path of <= 3 steps over 6 boundary indexes: public chain = neutered private chain; complete CKD tables replayed")
@@ -200,7 +200,7 @@ def run(ctx):
             c.setdefault("hr", [])
         byid = {c["id"]: c for c in cases}
         ctx.sample({k: v for k, v in cases[1].items() if k in ("id", "kind", "idx4", "depth", "res")})
-        bad = ctx.validate("bip32/BIP32Cases.tla", cases, "BIP32Cases.cfg", timeout=3000, per_shard_min=10)
+        bad = ctx.validate("bip32/BIP32Cases.tla", cases, "BIP32Cases.cfg", timeout=7200, per_shard_min=10)
         for cid, why in bad.items():
             c = byid[cid]
             ctx.violation("%s:%s" % (c["kind"], why), "%s case %s: %s" % (c["kind"], cid, why), {"kind": "case", "case": {k: v for k, v in c.items() if k != "hr"}})
